@@ -37,6 +37,9 @@ def main():
     if a.only:
         ids = [i for i in ids if i in a.only.split(",")]
     out = {}
+    rp = os.path.join(VERIF, "seeded", "RESULTS.json")
+    if a.only and os.path.exists(rp):
+        out = json.load(open(rp))  # a partial sweep updates the existing results
     with ThreadPoolExecutor(max_workers=a.jobs) as ex:
         for mid, res in ex.map(one, ids):
             det = [p for p, c in res.get("checks", {}).items() if c.get("detected")]
@@ -45,7 +48,7 @@ def main():
             print(mid, "detected by", det or "NONE", flush=True)
     with open(os.path.join(VERIF, "seeded", "RESULTS.json"), "w") as f:
         json.dump(out, f, indent=1)
-    missed = [m for m, r in out.items() if not r["detected_by"]]
+    missed = sorted(m for m, r in out.items() if not r["detected_by"])
     print("seeded changes: %d, detected: %d, missed: %s" % (len(out), len(out) - len(missed), missed))
     return 0
 
